@@ -223,6 +223,56 @@ def rule_start_labels(rep: Report, repo: Repo) -> None:
               f'{PRE}:{f.lineno}')
 
 
+def rule_wflip_labels(rep: Report, repo: Repo) -> None:
+    """the label table names the address an op was WRITTEN to: the wflip chain op goes into the spot get_wflip_spot() hands out (a free pad
+    slot in the code area, or the next word of the wflip area) - the cursor of the wflip area is that address only when no pad slot is free"""
+    rep.rule('C16.WFLIP-LABEL', 'every `:wflips:N` label inserted while a wflip chain is built carries the address of the spot the chain op is stored '
+             'into: the argument of the label helper is `<spot>.address` of the very spot object (the result of get_wflip_spot(), read through '
+             'locals) whose list / index receive the op in the same block', 1)
+    ASM_ = 'flipjump/assembler/assembler.py'
+    fn = repo.func(ASM_, 'BinaryData.insert_wflip_ops')
+    from ..pyfacts import resolve_names as _rn
+    # the label helpers are found by what they do, not by name: methods of the class that store one of their parameters under self.labels[..]
+    cls = next(c for c in repo.mod(ASM_).body if isinstance(c, ast.ClassDef) and c.name == 'BinaryData')
+    writers = {}
+    for m in [m for m in cls.body if isinstance(m, ast.FunctionDef)]:
+        params = [a.arg for a in m.args.args][1:]
+        for a in ast.walk(m):
+            if isinstance(a, ast.Assign) and any(isinstance(t, ast.Subscript) and norm(t.value) == 'self.labels' for t in a.targets):
+                v = _rn(m, a.value)
+                if isinstance(v, ast.Name) and v.id in params:
+                    writers[m.name] = params.index(v.id)
+    labels = []                 # (site node, address expression)
+    for c in ast.walk(fn):
+        if isinstance(c, ast.Call) and dotted(c.func).startswith('self.') and dotted(c.func)[5:] in writers:
+            i = writers[dotted(c.func)[5:]]
+            pname = [a.arg for a in next(m for m in cls.body if isinstance(m, ast.FunctionDef) and m.name == dotted(c.func)[5:]).args.args][1:][i]
+            e = c.args[i] if i < len(c.args) else next((k.value for k in c.keywords if k.arg == pname), None)
+            if e is not None:
+                labels.append((c, e))
+        elif isinstance(c, ast.Assign) and any(isinstance(t, ast.Subscript) and norm(t.value) == 'self.labels' for t in c.targets):
+            labels.append((c, c.value))
+    if not labels:
+        raise AnalysisError('C16.WFLIP-LABEL: insert_wflip_ops inserts no wflip label (a store into self.labels, directly or through a method of BinaryData, expected)')
+    spots = {norm(t) for a in ast.walk(fn) if isinstance(a, ast.Assign) and isinstance(a.value, ast.Call) and dotted(a.value.func).endswith('get_wflip_spot')
+             for t in a.targets}
+    for c, e in labels:
+        arg = _rn(fn, e)                # `addr = spot.address` ... label(addr) reads label(spot.address)
+        txt = norm(e)
+        base = norm(arg.value) if isinstance(arg, ast.Attribute) and arg.attr == 'address' else None
+        stored = set()
+        for a in ast.walk(fn):
+            for t in (a.targets if isinstance(a, ast.Assign) else []):
+                if isinstance(t, ast.Subscript):
+                    v = _rn(fn, t.value)
+                    if isinstance(v, ast.Attribute) and v.attr == 'list':
+                        stored.add(norm(v.value))
+        ok = base is not None and base in spots and base in stored
+        rep.check(ok, 'C16.WFLIP-LABEL', f'insert_wflip_ops:{txt}', 'the address of the spot the op is stored into' if ok else
+                  f'the label gets `{txt}`, not the address of the spot returned by get_wflip_spot() ({sorted(spots)}): when a free pad slot is reused the '
+                  f'op lives in the code area while the label names the cursor of the wflip area', repo.site(ASM_, c), expected='<spot>.address')
+
+
 def check(rep: Report, repo: Optional[Repo] = None) -> None:
     repo = repo or Repo()
     rep.units = dict(files=[PRE, ASM, FUNCS, BRK])
@@ -231,6 +281,7 @@ def check(rep: Report, repo: Optional[Repo] = None) -> None:
     rule_codec(rep, repo)
     rule_resolve(rep, repo)
     rule_start_labels(rep, repo)
+    rule_wflip_labels(rep, repo)
     rep.not_decided.append('that every label address equals its statement address (follows from C02.ADDR-MODEL, not separately decided)')
 
 
